@@ -274,6 +274,7 @@ def tabular(ctx) -> None:
 
 KIND = 'forml.io.dsl._struct.kind'
 INSTANTIABLE = {'bool', 'str', 'int', 'float', 'bytes'}  # native types whose constructor converts a value into the type
+LOSSY_TEMPORAL = {'timetuple', 'utctimetuple', 'date', 'floor', 'round', 'ceil', 'normalize', 'strftime', 'toordinal', 'fromordinal', 'mktime', 'replace', 'to_period', 'combine'}
 NATIVE_CTOR = {'numbers.Integral': {'int'}, 'numbers.Real': {'float'}, 'decimal.Decimal': {'decimal.Decimal'}}
 
 
@@ -317,6 +318,12 @@ def kind_cast(ctx) -> None:
                 ok = len(r) == 1 and len(body) == 1 and isinstance(r[0].value, ast.Call) and (core.dotted(r[0].value.func) or '') in NATIVE_CTOR[ty] and [core.src(a) for a in r[0].value.args] == [vparam] and not r[0].value.keywords
                 why += f' returning `{core.src(r[0].value) if r else None}`'
         ctx.check(ok, 'C15.kind-cast', ci.ref, f'{ci.qual} (native type {ty}) converts through the {why}: the result is of the declared kind', key=f'{ci.qual}:cast', loc=f'{ci.module.relpath}:{node.lineno}')
+        if ty == 'datetime.datetime' and owner is not anyk:
+            # a timestamp keeps its full resolution: nothing in the conversion narrows it to whole seconds / days or
+            # rebuilds it from a field tuple (a bound given as text would then differ from the same bound given natively)
+            lossy = [c for c in ast.walk(node) if isinstance(c, ast.Call) and core.call_tail(c) in LOSSY_TEMPORAL]
+            lossy += [x for x in ast.walk(node) if isinstance(x, ast.Subscript) and isinstance(x.slice, ast.Slice)]
+            ctx.check(not lossy, 'C15.kind-cast', ci.ref, f'{ci.qual} converts without narrowing the resolution (no {sorted(LOSSY_TEMPORAL)[:4]}.. / field-tuple slice)', lossy[0] if lossy else node, key=f'{ci.qual}:cast-resolution', loc=f'{ci.module.relpath}:{node.lineno}')
     ctx.floor('C15.kind-cast', n, 6)
     pc = prog.func(f'{prim.ref}.cast')
     ok = shared.stmt_under(ctx, 'C15.kind-cast', pc, f'return {pc.param_names[1]}', [(f'isinstance({pc.param_names[1]}, cls.__type__)', True)], 'a value already of the declared native type is passed through untouched', 'Primitive.cast:identity')
